@@ -316,6 +316,10 @@ fn run_once(def: &ScenDef, seed: u64, plan: &[PlanEntry], a: &Args) -> Outcome {
             res = Err(Fail::Violation(format!("residency monitor: {}", w)));
         }
     }
+    if res.is_ok() && hook::OWNER_VIOLATIONS.swap(0, SeqCst) != 0 {
+        let w = hook::OWNER_WITNESS.lock().unwrap().take().unwrap_or_default();
+        res = Err(Fail::Violation(format!("run-queue owner monitor: {}", w)));
+    }
     if res.is_ok() && hook::UNLINK_VIOLATIONS.swap(0, SeqCst) != 0 {
         let w = hook::UNLINK_WITNESS.lock().unwrap().take().unwrap_or_default();
         res = Err(Fail::Violation(format!("timer-list contract monitor: {} - Entry::remove is a consumer-side operation of the list (concurrent with the selector's pop_if it corrupts the links: 'assertion failed: (*tail).value.is_none()', a dead selector thread, every socket of that selector stranded)", w)));
@@ -627,7 +631,7 @@ fn main() {
     let mut nt: Vec<u64> = st.nontrivial.iter().cloned().collect();
     nt.sort();
     let json = format!(
-        "{{\"scenario\":{},\"workers\":{},\"seed\":{},\"execs\":{},\"planned\":{},\"stalls_hit\":{},\"clamped\":{},\"events\":{},\"sigs\":[{}],\"nontrivial_sigs\":[{}],\"hits\":{{{}}},\"stalled\":{{{}}},\"violations\":[{}],\"inconclusive\":{},\"samples\":[{}],\"residency_checks\":{},\"timer_unlink_checks\":{},\"reused_blocks\":{},\"stop_code\":{},\"wall_s\":{:.3}}}",
+        "{{\"scenario\":{},\"workers\":{},\"seed\":{},\"execs\":{},\"planned\":{},\"stalls_hit\":{},\"clamped\":{},\"events\":{},\"sigs\":[{}],\"nontrivial_sigs\":[{}],\"hits\":{{{}}},\"stalled\":{{{}}},\"violations\":[{}],\"inconclusive\":{},\"samples\":[{}],\"residency_checks\":{},\"timer_unlink_checks\":{},\"run_queue_owner_checks\":{},\"reused_blocks\":{},\"stop_code\":{},\"wall_s\":{:.3}}}",
         jstr(def.name),
         a.workers,
         a.seed,
@@ -645,6 +649,7 @@ fn main() {
         st.samples.join(","),
         hook::RESIDENCY_CHECKS.load(Relaxed),
         hook::UNLINK_CHECKS.load(Relaxed),
+        hook::OWNER_CHECKS.load(Relaxed),
         reuse::REUSED.load(Relaxed),
         stop_code,
         st.wall.elapsed().as_secs_f64()
